@@ -483,20 +483,23 @@ def run_property(pid, tier="quick", seed=0, extra=None):
         wall_s=round(time.time() - t0, 2),
         violations=len(real),
     )
-    os.makedirs(os.path.join(ROOT, "evidence"), exist_ok=True)
-    with open(os.path.join(ROOT, "evidence", "%s.json" % pid), "w") as f:
+    # evidence/ describes runs against /repo itself; a run against a scratch copy (PYVC_REPO, used to try seeded changes)
+    # writes under out/ so that it can never be mistaken for (or committed as) evidence about the real tree
+    evdir = os.path.join(ROOT, "evidence") if os.path.realpath(extract.REPO) == "/repo" else os.path.join(ROOT, "out", "evidence-scratch")
+    os.makedirs(evdir, exist_ok=True)
+    with open(os.path.join(evdir, "%s.json" % pid), "w") as f:
         json.dump(ev, f, indent=1)
 
     for l in lines:
         print(l)
     print("property %s: %d obligations, %d discharged, %d refuted, %d undecided, %d functions, %.1fs"
           % (pid, n_obl, n_dis, len(refuted), len(undecided), len(functions), time.time() - t0))
-    if errors:
-        for q, v, e in errors:
-            print("CHECKER-ERROR %s %s" % (vname(q, v), e.splitlines()[0]), file=sys.stderr)
-        return 3
+    for q, v, e in errors:
+        print("CHECKER-ERROR %s %s" % (vname(q, v), e.splitlines()[0]), file=sys.stderr)
     if real:
-        return 1
+        return 1  # a replayed / named violation stands whatever else went wrong
+    if errors:
+        return 3
     if n_obl == 0:
         print("no obligations generated: refusing to report success", file=sys.stderr)
         return 3
